@@ -184,6 +184,13 @@ class ProgGen:
     """Multi-valued Literal aliases, functions/methods taking them (with defaults), wrong calls."""
     r = self.r
     strs = r.sample(self.n.lit_strs, r.randint(4, 7))
+    # members that differ only in case ('get' / 'GET' / 'Get'): any case-insensitive ordering of a printed literal
+    # union leaves their relative order to set iteration, i.e. to the hash seed
+    if r.random() < 0.7 and strs[0].upper() != strs[0]:
+      strs[1] = strs[0].upper()
+      if r.random() < 0.5 and strs[2].capitalize() not in strs:
+        strs[3] = strs[2].capitalize()
+      self.feat("literal-case-variants")
     ints = r.sample([0, 1, 2, 3, 5, 10, 12, 20, 21, 100, 101, -1], r.randint(4, 6))
     a1, a2 = self.cname(), self.cname()
     self.emit("%s = Literal[%s]" % (a1, ", ".join('"%s"' % s for s in strs)))
@@ -211,6 +218,21 @@ class ProgGen:
       self.feat("same-line-errors")
     self.classes.append(cls)
     self.feat("literal-str>=4", "literal-int>=4", "signature-with-defaults")
+
+  def enum_block(self):
+    """Classes from a stub BUNDLED with pytype (enum), and inferred unions that collapse only if that stub's class
+    hierarchy is known to the optimiser (Union[enum.Enum, enum.IntEnum] -> enum.Enum): sensitive to what a reused
+    loader cached before this module was the first to import the stub."""
+    r = self.r
+    e1, e2 = self.cname(), self.cname()
+    f1, f2 = self.fname(), self.fname()
+    self.emit("import enum")
+    self.emit("class %s(enum.Enum):" % e1, "  %s = 1" % self.aname().upper(), "  %s = 2" % self.aname().upper())
+    self.emit("class %s(enum.IntEnum):" % e2, "  %s = 1" % self.aname().upper())
+    self.emit("def %s(c, a: enum.Enum, b: enum.IntEnum):" % f1, "  return a if c else b")
+    self.emit("def %s(c, a: %s, b: %s, d: enum.Flag):" % (f2, e1, e2), "  if c:", "    return a", "  elif c is None:", "    return d", "  return b")
+    self.emit("%s(%s)" % (f1, self.wrong_value()))
+    self.feat("bundled-stub-enum")
 
   def newtype_block(self):
     r = self.r
@@ -481,6 +503,8 @@ class ProgGen:
     optional = [self.namedtuple_block, self.typeddict_block, self.generic_block, self.protocol_overload_block,
                 self.traceback_block, self.closure_lambda_block, self.annotated_call_block, self.class_block,
                 self.class_block, self.misc_error_block, self.misc_error_block]
+    if self.allow_bundled:
+      optional += [self.enum_block, self.enum_block]
     blocks = must + r.sample(optional, min(len(optional), 3 + size))
     r.shuffle(blocks)
     for b in blocks:
@@ -488,7 +512,7 @@ class ProgGen:
     return "\n".join(self.lines) + "\n"
 
 
-def gen_program(r, size=2, names_seed=None):
+def gen_program(r, size=2, names_seed=None, allow_bundled=True):
   """r: structure RNG; names_seed: seed of the identifier pools (default: drawn from r).
   Two programs with the same names_seed share class/function/NewType names.  Returns (source, feature list)."""
   import random  # pylint: disable=import-outside-toplevel
@@ -496,6 +520,7 @@ def gen_program(r, size=2, names_seed=None):
     names_seed = r.getrandbits(48)
   for _ in range(20):
     g = ProgGen(r, random.Random("c04-names:%s" % names_seed))
+    g.allow_bundled = allow_bundled
     src = g.build(size)
     try:
       compile(src, "prog.py", "exec")
@@ -507,4 +532,5 @@ def gen_program(r, size=2, names_seed=None):
 
 def gen_unrelated(r):
   """History programs come from the same rich generator (NewTypes, NamedTuples, TypeVars, errors, ...)."""
-  return gen_program(r, 1)[0]
+  # never imports a bundled stub (enum), so that a target program can be the FIRST importer on a reused loader
+  return gen_program(r, 1, allow_bundled=False)[0]
